@@ -36,6 +36,7 @@ class SimState:
     clock_reads = 0
     blocking_sleeps = 0
     log_records: list = []
+    debug_all: bool = False     # run with the debug flag of the circuit and of every block on
     max_blocking_sleeps = 200_000
 
 
@@ -177,6 +178,23 @@ def install():
     if missing:
         raise RuntimeError(f"seams not attached: {sorted(missing)}")
     _edzed.block.Block.__hash__ = _block_hash
+    # debug seam: the documented debug flags (Block(debug=True), blk.debug, Circuit.set_debug)
+    # are an environment dimension of every property; when the run asks for it every block and
+    # the circuit itself are created with the flag on and the messages are really formatted
+    _orig_addblock = _edzed.simulator.Circuit.addblock
+    _orig_cinit = _edzed.simulator.Circuit.__init__
+
+    def _addblock(self, blk):
+        if S.debug_all:
+            blk.debug = True
+        return _orig_addblock(self, blk)
+
+    def _cinit(self, *args, **kwargs):
+        _orig_cinit(self, *args, **kwargs)
+        if S.debug_all:
+            self.debug = True
+    _edzed.simulator.Circuit.addblock = _addblock
+    _edzed.simulator.Circuit.__init__ = _cinit
     for lname in ('edzed', 'asyncio'):
         logger = logging.getLogger(lname)
         logger.handlers[:] = [_Capture()]
@@ -189,9 +207,12 @@ def install():
 
 
 def bind(loop, *, wall_start_us: int = 1_700_000_000_000_000, tz_offset_s: int = 0,
-         hash_salt: int = 0, read_cost_ns: int = 1_000, clock_gran_us: int = 1):
+         hash_salt: int = 0, read_cost_ns: int = 1_000, clock_gran_us: int = 1,
+         debug: bool = False):
     """Attach the seams to a new run."""
     install()
+    S.debug_all = bool(debug)
+    logging.getLogger('edzed').setLevel(logging.DEBUG if debug else logging.INFO)
     edzed.reset_circuit()
     S.loop = loop
     S.wall_offset_ns = wall_start_us * 1000 - loop._ns
